@@ -42,6 +42,10 @@ TRACE = ("open,openat,openat2,creat,read,pread64,readv,write,pwrite64,writev,clo
          "readlinkat,flock,getdents64,ftruncate,truncate,fchmod,link,linkat,symlink,symlinkat,chdir,fchdir,"
          "execve,clone,clone3,fork,vfork,copy_file_range,sendfile")
 
+# path classes whose final names must only appear through rename (see the structural rule in check())
+ATOMIC_CLASSES = frozenset(["build:info", "project:lockfile", "build:cache:manifest", "build:cache:blob",
+                            "build:cache-ls:manifest", "build:cache-ls:blob", "output", "output:dependencies", "cache:std"])
+
 LINE = re.compile(r"^(\d+)\s+(\d+\.\d+)\s+(.*)$")
 CALL = re.compile(r"^([a-z_0-9]+)\((.*)\)\s+=\s+(-?\d+|\?|0x[0-9a-f]+)(<[^>]*>)?(?:\s+([A-Z_0-9]+)\s+\([^)]*\))?(?:\s+\([^)]*\))?\s*(?:<(\d+\.\d+)>)?\s*$")
 UNFIN = re.compile(r"^([a-z_0-9]+)\((.*)\s+<unfinished \.\.\.>$")
@@ -476,6 +480,41 @@ def check(actors, cfg):
         wsess.append({"actor": s["actor"], "path": s["path"], "start": start, "end": end, "open": s["open"], "last": s["writes"][-1],
                       "writes": s["writes"]})
     bump("writer_sessions", len(wsess))
+
+    # ---- structural rule: lock-free-read classes must be published by rename only -------------------
+    # A *final-name* path of these classes is read by other processes without the writer's lock
+    # (info.toml: Metadata::load before .build/lock and veryl-ls; Veryl.lock: veryl-ls global_key; cache manifest /
+    # blobs: "writes stay atomic, readers degrade to misses" contract of veryl_cache::Store, also used lock-free by a
+    # second veryl-ls; outputs and the filelist: read by downstream tools and trusted by dst_is_stale; std/<hash>/**:
+    # every process reads it after a bare exists() check).  So such a path may only ever *appear complete*: opening it
+    # under its final name with O_CREAT/O_TRUNC and then writing into it is a non-atomic publish, whether or not a
+    # reader happened to look in this run.  Temp names (.tmpXXXX, anything below a *.partial directory) are private.
+    atomic_classes = cfg.get("atomic_classes", ATOMIC_CLASSES)
+    flagged_np = set()
+    # non-vacuity: how often a final name of such a class really was published (by rename) in this run
+    for a in actors:
+        for e in a.events:
+            if e.kind == "rename" and e.ok and e.path and e.path not in lockfiles:
+                cls = path_class(e.path, cfg)
+                if cls in atomic_classes and not e.path.split("/")[-1].startswith(".tmp"):
+                    bump("atomic_publishes:" + cls)
+                    bump("atomic_publishes")
+    for s in wsess:
+        p = s["path"]
+        cls = path_class(p, cfg)
+        if cls is None or not ("O_TRUNC" in s["open"].flags or "O_CREAT" in s["open"].flags):
+            continue
+        parts = p.split("/")
+        if parts[-1].startswith(".tmp") or any(x.endswith(".partial") for x in parts):
+            continue
+        bump("final_name_writes:" + cls)
+        if cls in atomic_classes and (s["actor"], cls) not in flagged_np:
+            flagged_np.add((s["actor"], cls))
+            findings.append({"rule": "NP", "kind": "nonatomic_publish", "class": cls,
+                             "what": f"{s['actor']} opened {p} under its final name with {s['open'].flags} and wrote {sum(w.n or 0 for w in s['writes'])} "
+                                     f"bytes into it in place (open +{s['open'].t0 - t_base:.4f}s, last write +{s['last'].t1 - t_base:.4f}s): files of class "
+                                     f"{cls} are read by other processes without the writer's lock and must be published by rename",
+                             "writer": s["actor"], "path": p, "events": [s["open"].brief(t_base), s["last"].brief(t_base)]})
     by_path = {}
     for s in wsess:
         by_path.setdefault(s["path"], []).append(s)
@@ -570,6 +609,14 @@ def check(actors, cfg):
             if (e.kind == "mkdir" and e.path != u) or (e.kind == "openw" and "O_CREAT" in e.flags) or e.kind == "rename":
                 units[u]["creates"].append(e)
         for u, info in units.items():
+            # A population that starts inside a critical section ends with it: the burst is bounded by the first release
+            # among the locks the writer held at the mkdir (e.g. clone under dependencies/lock).  What the writer creates
+            # below the unit later (its own `.build` directory from Metadata::load, ...) is not part of the population.
+            mk = info["mkdir"]
+            rel = [r for (lp, acq, r) in holds[a.name].h if acq <= mk.t0 and mk.t1 <= r]
+            if rel:
+                bound = min(rel)
+                info["creates"] = [c for c in info["creates"] if c.t1 <= bound]
             if not info["creates"]:
                 continue
             bump("population_bursts")
@@ -703,7 +750,8 @@ def selftest(tmpdir):
     for n, text in _SELFTEST_LOGS.items():
         with open(os.path.join(tmpdir, n + ".log"), "w") as f:
             f.write(text)
-    cfg = {"cache_root": "/w/home/.cache", "projects": ["/w/pa", "/w/pb"], "build_dirs": ["/w/pa/.build", "/w/pb/.build"]}
+    cfg = {"cache_root": "/w/home/.cache", "projects": ["/w/pa", "/w/pb"], "build_dirs": ["/w/pa/.build", "/w/pb/.build"],
+           "atomic_classes": frozenset()}       # the interleaving rules are tested on an in-place writer
 
     def run(second, cwd, role):
         acts = [Actor("A", os.path.join(tmpdir, "a.log"), "/w/pa"), Actor("B", os.path.join(tmpdir, second + ".log"), cwd, role)]
@@ -726,7 +774,40 @@ def selftest(tmpdir):
     got, st = run("ls_good", "/w/pa", "ls")
     if got or st.get("ls_flock_nonblocking") != 1:
         problems.append(f"non-blocking LS flock must be silent and counted: {got} {st}")
+    # structural rule: the in-place writer alone is a non-atomic publish; a temp+rename writer is not
+    cfg2 = dict(cfg, atomic_classes=ATOMIC_CLASSES)
+    a = Actor("A", os.path.join(tmpdir, "a.log"), "/w/pa")
+    a.parse()
+    got = sorted((f["rule"], f["class"]) for f in check([a], cfg2)["findings"])
+    if got != [("NP", "cache:std"), ("NP", "output")]:
+        problems.append(f"in-place writer: expected nonatomic_publish for cache:std and output, got {got}")
+    with open(os.path.join(tmpdir, "np_good.log"), "w") as f:
+        f.write(_NP_GOOD)
+    g = Actor("G", os.path.join(tmpdir, "np_good.log"), "/w/pa")
+    g.parse()
+    r = check([g], cfg2)
+    if r["findings"] or r["stats"].get("writer_sessions") != 3 or g.parse_errors:
+        problems.append(f"temp+rename writer must be silent: {r['findings']} {r['stats']}")
     return problems
+
+
+_NP_GOOD = """100 1000.000000 execve("/x/veryl", ["veryl", "build"], 0x7ffe /* 10 vars */) = 0 <0.000100>
+100 1000.100000 openat(AT_FDCWD</w/pa>, "/w/pa/.build/.tmpAbC123", O_RDWR|O_CREAT|O_EXCL|O_CLOEXEC, 0600) = 4</w/pa/.build/.tmpAbC123> <0.000020>
+100 1000.100100 write(4</w/pa/.build/.tmpAbC123>, "# This file"..., 446) = 446 <0.000020>
+100 1000.100200 fchmod(4</w/pa/.build/.tmpAbC123>, 0644) = 0 <0.000010>
+100 1000.100300 renameat(AT_FDCWD</w/pa>, "/w/pa/.build/.tmpAbC123", AT_FDCWD</w/pa>, "/w/pa/.build/info.toml") = 0 <0.000020>
+100 1000.100400 close(4</w/pa/.build/info.toml>) = 0 <0.000010>
+100 1000.200000 openat(AT_FDCWD</w/pa>, "/w/pa/target/.tmpXyZ789", O_RDWR|O_CREAT|O_EXCL|O_CLOEXEC, 0600) = 4</w/pa/target/.tmpXyZ789> <0.000020>
+100 1000.200100 write(4</w/pa/target/.tmpXyZ789>, "module a"..., 100) = 100 <0.000020>
+100 1000.200300 renameat(AT_FDCWD</w/pa>, "/w/pa/target/.tmpXyZ789", AT_FDCWD</w/pa>, "/w/pa/target/a.sv") = 0 <0.000020>
+100 1000.200400 close(4</w/pa/target/a.sv>) = 0 <0.000010>
+100 1000.300000 mkdir("/w/home/.cache/veryl/std/.abcdef0123456789.partial", 0777) = 0 <0.000020>
+100 1000.300100 openat(AT_FDCWD</w/pa>, "/w/home/.cache/veryl/std/.abcdef0123456789.partial/fifo.veryl", O_WRONLY|O_CREAT|O_TRUNC|O_CLOEXEC, 0666) = 5</w/home/.cache/veryl/std/.abcdef0123456789.partial/fifo.veryl> <0.000020>
+100 1000.300200 write(5</w/home/.cache/veryl/std/.abcdef0123456789.partial/fifo.veryl>, "pub module fifo"..., 1000) = 1000 <0.000020>
+100 1000.300300 close(5</w/home/.cache/veryl/std/.abcdef0123456789.partial/fifo.veryl>) = 0 <0.000010>
+100 1000.300400 rename("/w/home/.cache/veryl/std/.abcdef0123456789.partial", "/w/home/.cache/veryl/std/abcdef0123456789") = 0 <0.000020>
+100 1000.900000 +++ exited with 0 +++
+"""
 
 
 def signature(f, scenario):
